@@ -479,7 +479,16 @@ structure Gnat (α D : Type) where
   offset : Nat := 0
   nextId : Nat := 0
 
+/-- the constructor as coded since /repo 77efe5ce5 (repair of F400): `degree_ = max(degree, 1)`,
+`minDegree_ = max(min(degree, minDegree), 1)`, `maxDegree_ = max(max(maxDegree, degree), 1)`,
+`rebuildSize_ = rebalancing ? maxNumPtsPerLeaf * max(degree, 1) : max`. -/
 def Gnat.init (degree minDegree maxDegree leaf cache : Nat) (rebalancing : Bool) : Gnat α D :=
+  { params := ⟨max degree 1, max (min degree minDegree) 1, max (max maxDegree degree) 1, leaf, cache, rebalancing⟩,
+    rebuildSize := if rebalancing then some (leaf * max degree 1) else none }
+
+/-- the constructor as it was before 77efe5ce5 (no clamping: `degree = 0` / `minDegree = 0` accepted, finding F400);
+the check selects it (`ctor=old`) when the tree under test does not contain the repair. -/
+def Gnat.initOld (degree minDegree maxDegree leaf cache : Nat) (rebalancing : Bool) : Gnat α D :=
   { params := ⟨degree, min degree minDegree, max maxDegree degree, leaf, cache, rebalancing⟩,
     rebuildSize := if rebalancing then some (leaf * degree) else none }
 
